@@ -525,7 +525,8 @@ class StackBuilder(object):
         "output_max": omax,
         "clip_inputs": s.chance(0.5),
         "interpolation": s.choice(["hypercube", "simplex"]),
-        "monotonic_at_every_step": not s.chance(0.15),
+        "monotonic_at_every_step": not s.chance(0.3),
+        "calib_unbounded": s.chance(0.3),
         "num_projection_iterations": s.choice([10, 10, 5, 15]),
         "num_terms": s.integer(1, 3),
         "kernel_init": s.choice(["default", "linear_initializer",
@@ -537,8 +538,12 @@ class StackBuilder(object):
                 "random_seed": s.integer(0, 99),
                 "parameterization": s.choice(["all_vertices",
                                               "kronecker_factored"]),
-                "avoid_intragroup_interaction": s.chance(0.7)},
+                "avoid_intragroup_interaction": s.chance(0.7),
+                "two_layer": s.chance(0.4)},
     }
+    # Unbounded calibrators are legitimate in front of a layer that clips.
+    if not (mid in ("lattice", "kfl") and st["clip_inputs"]):
+      st["calib_unbounded"] = False
     while st["rtl"]["num_lattices"] * st["rtl"]["lattice_rank"] < n_feat:
       st["rtl"]["num_lattices"] += 1
     if mid == "kfl" or (mid == "rtl" and
@@ -568,6 +573,8 @@ class StackBuilder(object):
         rng_min, rng_max = 0.0, 1.0
       else:
         rng_min, rng_max = 0.0, f["lattice_size"] - 1.0
+      if st.get("calib_unbounded"):
+        rng_min = rng_max = None
       layers.append(_calibrator(tfl, keras, f, rng_min, rng_max,
                                 "calib_" + f["name"], units=k_units))
     if st["combine"].startswith("parallel"):
@@ -656,12 +663,15 @@ class StackBuilder(object):
         groups.setdefault("increasing" if m else "unconstrained", []).append(c)
       rtl_in = {k: (keras.layers.Concatenate(axis=1)(v) if len(v) > 1 else v[0])
                 for k, v in groups.items()}
+      two = bool(r.get("two_layer"))
+      L = feats[0]["lattice_size"]
       layer = tfl.layers.RTL(
           num_lattices=r["num_lattices"],
           lattice_rank=r["lattice_rank"],
-          lattice_size=feats[0]["lattice_size"],
-          output_min=st["output_min"],
-          output_max=st["output_max"],
+          lattice_size=L,
+          output_min=0.0 if two else st["output_min"],
+          output_max=(L - 1.0) if two else st["output_max"],
+          separate_outputs=two,
           random_seed=r["random_seed"],
           clip_inputs=st["clip_inputs"],
           interpolation=st["interpolation"],
@@ -669,12 +679,34 @@ class StackBuilder(object):
           num_terms=st["num_terms"],
           avoid_intragroup_interaction=r["avoid_intragroup_interaction"],
           monotonic_at_every_step=st["monotonic_at_every_step"],
-          average_outputs=True,
+          average_outputs=not two,
           kernel_initializer=("kfl_random_monotonic_initializer"
                               if r["parameterization"] == "kronecker_factored"
                               else "random_monotonic_initializer"),
           name="mid_rtl")
       y = layer(rtl_in)
+      if two:
+        # Stacked RTL layers: the first one labels its outputs
+        # 'increasing' / 'unconstrained' for the second one.
+        n1 = r["num_lattices"]
+        y = tfl.layers.RTL(
+            num_lattices=max(2, (n1 + 1) // 2 + 1),
+            lattice_rank=2,
+            lattice_size=L,
+            output_min=st["output_min"],
+            output_max=st["output_max"],
+            random_seed=r["random_seed"] + 1,
+            clip_inputs=st["clip_inputs"],
+            interpolation=st["interpolation"],
+            parameterization=r["parameterization"],
+            num_terms=st["num_terms"],
+            monotonic_at_every_step=st["monotonic_at_every_step"],
+            average_outputs=True,
+            kernel_initializer=("kfl_random_monotonic_initializer"
+                                if r["parameterization"] ==
+                                "kronecker_factored" else
+                                "random_monotonic_initializer"),
+            name="top_rtl")(y)
     if st["out_calib"]:
       lo, hi = st["output_min"], st["output_max"]
       if lo is not None and hi is not None:
